@@ -31,7 +31,7 @@ CMP = ("x", "fun", "jac", "nfev", "njev", "nit", "message", "sk", "yk")
 
 def floors(tier):
     return {"identity_pairs_compared": 60, "switch_runs": 250, "post_switch_states_checked": 800, "switches_dropping_pairs": 40,
-            "switches_newest_pair_rejected": 5, "restart_equivalence_checked": 250, "initial_call_rewrites_on_restart": 100, "filter_calls_on_histories_of_12_to_45_pairs": 300, "pairs_of_zero_iteration_continuations_checked": 60, "switch_runs_with_new_objective_undefined_at_an_old_iterate": 40, "switch_runs_with_inert_differencing_step": 100, "__nontrivial__": 40}
+            "switches_newest_pair_rejected": 5, "restart_equivalence_checked": 250, "initial_call_rewrites_on_restart": 100, "switch_runs_traced_through_a_logger": 100, "filter_calls_on_histories_of_12_to_45_pairs": 300, "pairs_of_zero_iteration_continuations_checked": 60, "switch_runs_with_new_objective_undefined_at_an_old_iterate": 40, "switch_runs_with_inert_differencing_step": 100, "__nontrivial__": 40}
 
 
 def cases(tier, seed):
@@ -260,6 +260,8 @@ def switch_trace(spec, extra_cfg=None):
 
     cfg = dict(jac="callable", maxcor=spec["maxcor"], maxls=20, maxiter=spec["maxiter"], ftol=0.0, gtol=1e-10, maxfun=10000,
                eps_SY=float(spec.get("eps_SY", 2.2e-16)))
+    if int(spec.get("vseed", 0)) % 3 == 1:
+        cfg.update(logger=True, iprint=int([-1, 0, 99, 101][int(spec.get("vseed", 0)) // 3 % 4]))  # traced through the user's logger
     cfg.update(extra_cfg or {})
     return probes.run_min(S, cfg, hooks={"ufd": ufd})
 
@@ -289,6 +291,9 @@ def run_switch(spec, out):
     if spec.get("fd_step") is not None:
         cfg["eps"] = spec["fd_step"]  # differencing step: inert with a callable gradient, passed at a non-default value
         out.count("switch_runs_with_inert_differencing_step")
+    if int(spec.get("vseed", 0)) % 3 == 1:
+        cfg.update(logger=True, iprint=int([-1, 0, 99, 101][int(spec.get("vseed", 0)) // 3 % 4]))  # traced through the user's logger
+        out.count("switch_runs_traced_through_a_logger")
     tr = probes.run_min(S, cfg, hooks={"ufd": ufd})
     name = f"switch {P0.spec['family']} n={P0.n} maxcor={spec['maxcor']} eps_SY={eps_sy:g} {desc} at call {spec['switch_at']}"
     tags = dict(kind="switch", variant=spec["variant"])
